@@ -456,7 +456,7 @@ class C14Check(PoolCheckBase):
     probes_expected = ["cold_start", "single_candidate_left", "one_class_only", "duplicate_points", "batch_clipped", "tie_at_argmax", "multi_cycle"]
     assumptions = [
         "the two pool wrappers are not subjects (SubSamplingWrapper returns at most its sub-sample size by design; the parallel wrapper supports batch_size=1 only)",
-        "termination is judged with a deterministic fuel of %d line events inside skactiveml per query" % FUEL,
+        "termination is judged with a deterministic fuel of %d line events inside skactiveml per query (times (n/40)^2 for pools of more than 40 samples)" % FUEL,
         "shape and dtype of the returned array are C01's business: the result is flattened before it is judged",
     ]
     tiers = {"quick": {"runs": 4500, "wall_cap": 600, "chunk": 10}, "thorough": {"runs": 90000, "wall_cap": 3300, "chunk": 25}}
@@ -512,10 +512,12 @@ class C14Check(PoolCheckBase):
                     ctx.notes.append(f"caller-side fit failed: {ex!r}")
                     return ctx.result(sig=self._sig(sc, ctx), extra={"aborted": True, "notes": ctx.notes})
             try:
-                with Fuel(FUEL):
+                # the step budget grows with the pool (the rare large pools of the thorough tier legitimately need
+                # more steps: e.g. a pre-computed table over all label counts)
+                with Fuel(int(FUEL * max(1.0, (n / 40.0) ** 2))):
                     res = w.call(y, bs, return_utilities=sc.get("return_utilities", False), prefit=sc.get("prefit", False))
             except SimFuelExhausted:
-                ctx.violate("query-does-not-terminate", subj, f"cycle {cycles}: query used more than {FUEL} line events ({u} unlabeled, batch {bs})", cond)
+                ctx.violate("query-does-not-terminate", subj, f"cycle {cycles}: query used more than {int(FUEL * max(1.0, (n / 40.0) ** 2))} line events ({u} unlabeled, batch {bs}, pool of {n})", cond)
                 break
             except Exception as ex:
                 if not collaborator_sane(w, y):
